@@ -4,6 +4,7 @@ import CuqiVerif.Model.C06
 import CuqiVerif.Model.C06_factor
 import CuqiVerif.Model.C06_loop
 import CuqiVerif.Model.C06_ugla
+import CuqiVerif.Model.C06_gmrf
 open CuqiVerif CuqiVerif.Proto CuqiVerif.C06
 
 /-!
@@ -14,6 +15,7 @@ open CuqiVerif CuqiVerif.Proto CuqiVerif.C06
   lik      := <m> <A m×n> <d> <L m×m> spec                (L = leaf: the implementation's sqrtprec)
   prior    := `gauss` <L2 n×n> <meanLen> <mean> spec
             | `gmrf`  <L2 n×n> <mean> <P n×n>              (P = prec · DᵀD, exact)
+            | `gmrfop` <L2 n×n> <mean> <order> <bc> <prec>   (P = prec · DᵀD computed by the model from C20's `diffOp`)
             | `joint` <nb> (<rows> <R rows×n> <mu>)*nb
   problem  := <n> <k> lik*k prior
 
@@ -28,6 +30,8 @@ open CuqiVerif CuqiVerif.Proto CuqiVerif.C06
   `loop legacy <N> <Nb> <maxit> problem <x0> <e>*`  (exact CGLS: tol = 0, eps = 2⁻⁵²; the draws in the order consumed)
   `loop exp <Nb> <Ns> <maxit> problem <x0> <e>*`   → `ok <one row per returned sample>` | `ok empty` | `err:IndexError`
   `uglaw <n> <p> <D p×n> <xk> <beta> <w>`          → `ok <residuals w⁴((D x_k)²+β)−1> <L2 = W^{1/2} D>`
+  `factors <dim> <kind> <storage: dense|dia|csr|csc|coo|bsr|lil> <arr>` → `<path> <result sparse 0/1> ` + the `factor` answer
+  `gmrfprec <order> <bc> <n> <prec>`               → `ok <rows of D> <D> <prec·DᵀD>` | `err:ValueError`
   `kinds <cov> <prec> <sqrtcov> <sqrtprec>` (0/1: argument given) → `cov|prec|sqrtcov|sqrtprec` | `none` | `err:ValueError`
 -/
 
@@ -146,6 +150,20 @@ def parsePrior (n : Nat) : List String → Option (PriorD × List String)
     let l2mu := tv n pr0.L2mu
     some ({ prior := { pr0 with L2mu := l2mu.f }, code := pm, doc := pm,
             refused := mean.length != n }, ts)
+  | "gmrfop" :: L2 :: mean :: order :: bc :: prec :: ts => do
+    let L2 ← parseMat L2
+    let mean ← parseVec mean
+    let order ← order.toNat?
+    let bc ← C20.BC.ofString bc
+    let prec ← parseRat prec
+    let L2t := tmOf L2
+    let meant := tvOf mean
+    let P := tm n n (gmrfPrec order bc n prec)
+    let pm := precTimes n (some P) meant.f
+    let pr0 := gmrfPrior n L2t.f meant.f
+    let l2mu := tv n pr0.L2mu
+    some ({ prior := { pr0 with L2mu := l2mu.f }, code := pm, doc := pm,
+            refused := mean.length != n || !gmrfAccepts order bc }, ts)
   | "joint" :: nb :: ts => do
     let nb ← nb.toNat?
     let (bs, ts') ← parseJoint n nb ts
@@ -271,6 +289,21 @@ def fmtBranch : Branch → String
 def fmtFacErr : FacErr → String
   | .valueError => "err:ValueError" | .linAlgError => "err:LinAlgError"
 
+def parseStorage : String → Option Storage
+  | "dense" => some .dense | "dia" => some .dia | "csr" => some .csr | "csc" => some .csc
+  | "coo" => some .coo | "bsr" => some .bsr | "lil" => some .lil | _ => none
+
+def fmtPath : Path → String
+  | .diagBranch => "diagBranch" | .denseFull => "denseFull" | .sparseFull => "sparseFull"
+  | .keptDia => "keptDia" | .keptDiagonal => "keptDiagonal" | .keptFull => "keptFull"
+
+def fmtFac (k : Kind) (x : Arr Q) : Fac Q → String
+  | .ok b sz L => s!"ok {fmtBranch b} {sz} {fmtM sz sz L}"
+  | .irrational b sz =>
+    s!"irrational {fmtBranch b} {sz} {fmtBool k.isCov} {fmtM sz sz (specMat true sz k (x.shapeIn k b))}"
+  | .flat1 => "flat1"
+  | .err e => fmtFacErr e
+
 def runFactor (dim : Nat) (k : Kind) (x : Arr Q) : String :=
   match sqrtprecOf ratSqrt qInv dim k x with
   | .ok b sz L => s!"ok {fmtBranch b} {sz} {fmtM sz sz L}"
@@ -307,6 +340,19 @@ def step : List String → String
                           D := (tmOf D).f, loc := fun _ => 0, s := 1, w := (tvOf w).f }
       s!"ok {fmtV p (U.weightResidual beta (tvOf xk).f)} {fmtM p n U.L2}"
     | _, _, _, _, _, _ => "bad-op"
+  | ["gmrfprec", order, bc, n, prec] =>
+    match order.toNat?, C20.BC.ofString bc, n.toNat?, parseRat prec with
+    | some order, some bc, some n, some prec =>
+      if !gmrfAccepts order bc then "err:ValueError" else
+      let r := gmrfRows order bc n
+      s!"ok {r} {fmtM r n (gmrfD order bc n)} {fmtM n n (gmrfPrec order bc n prec)}"
+    | _, _, _, _ => "bad-op"
+  | ["factors", dim, kd, st, arr] =>
+    match dim.toNat?, parseKind kd, parseStorage st, parseArr arr with
+    | some dim, some kd, some st, some x =>
+      let pth := storedPath kd st x.isDiag
+      s!"{fmtPath pth} {fmtBool pth.resultSparse} " ++ fmtFac kd x (sqrtprecOfStored ratSqrt qInv dim kd st x)
+    | _, _, _, _ => "bad-op"
   | ["factor", dim, kd, arr] =>
     match dim.toNat?, parseKind kd, parseArr arr with
     | some dim, some kd, some x => runFactor dim kd x
